@@ -208,6 +208,27 @@ def build_traces(path, tier, seed):
              "sd": enc_seq(o.s_d), "sv": enc_seq(o.s_v), "sa": enc_seq(o.s_a)},
             {"kind": "object", "n": n, "dt": dt, "xi": 0.05, "min_dt_ratio": q_, "T_over_dt": [p / dt for p in periods],
              "shape": "used object: spectra read lazily, then the generator called with min_dt_ratio only"})
+    # the same object asked for the spectra of ANOTHER period list of the same count with the same first and last entry (the
+    # two lists differ only in their interior: under coarse numpy print options they print identically)
+    for j in range(3 if tier == "quick" else 12):
+        n = int(rng.integers(30, 90))
+        dt = [0.01, 0.02, 0.005][j % 3]
+        a, shape = gen.record(rng, n, amp=1.0)
+        p1 = np.array([7.0, 9.0, 13.0, 21.0, 30.0, 55.0, 80.0]) * dt
+        p2 = p1.copy()
+        p2[1:-1] *= np.array([1.21, 0.87, 1.3, 0.9, 1.17])
+        o = eqsig.AccSignal(a, dt, response_times=p1.copy())
+        xi = [0.05, 0.2, 0.0][j % 3]
+        if j % 2:
+            o.gen_response_spectrum(xi=xi)
+        else:
+            _ = o.s_a
+            xi = 0.05
+        o.gen_response_spectrum(response_times=p2.copy(), xi=xi)
+        add({"kind": "object", "dt": enc(dt), "xi": enc(xi), "a": enc_seq(a), "periods": enc_seq(p2), "raised": False, "q": 4,
+             "sd": enc_seq(o.s_d), "sv": enc_seq(o.s_v), "sa": enc_seq(o.s_a)},
+            {"kind": "object", "n": n, "dt": dt, "xi": xi, "min_dt_ratio": 4, "T_over_dt": [p / dt for p in p2],
+             "shape": shape + " (same object, another period list with the same ends asked for right after)"})
     # the two inputs named in known_findings.json (C03-input-energy-negative) are always exercised
     for (n, a0, a1, ratio, xi, dt) in [(10, 0.9, 0.3, 1.06, 0.05, 0.01), (14, 0.8, 0.2, 1.05, 0.3, 0.01), (205, 0.967, 0.678, 0.35, 0.554, 0.005)]:
         a = np.linspace(a0, a1, n)
